@@ -232,6 +232,8 @@ func Survival(end End, noSession bool) []Finding {
 		k := "server-goroutine-does-not-finish"
 		if strings.Contains(end.Hang, "Idle") {
 			k = "idle-goroutine-does-not-finish"
+		} else if strings.Contains(end.Hang, "Server.conns") {
+			k = "connection-still-tracked-does-not-finish"
 		}
 		fs = append(fs, Finding{Key: k, Msg: end.Hang})
 		return fs
